@@ -914,12 +914,14 @@ def d17_probe(ctx, shim):
     ctx.note_search("morx-d17", 2, 2, rule="two fixed probes of the feature-range handling of the non-contextual subtable")
 
 
-# finding F2: a font (found by the morx-run generator, seed 5) whose single insertion subtable makes a 3-glyph
-# string cost work cubic in max_ops: an out-of-range marked-insert index makes InsertionCtx::transition return
-# (`glyphs.get(i)?`) right after move_to(mark)+copy_glyph, so the cursor stays rewound at the mark (=0) and one
-# glyph is duplicated; drive re-scans the whole buffer once per unit of max_ops, and every re-scanned glyph
-# runs a zero-count marked insertion (move_to(0) and back: O(n) for 0 ops). With the default budget of shape()
-# (max_ops = 16384) the 3 glyphs below did not finish in 15 minutes.
+# finding F2 (repaired in the crate: "morx insertion subtable inserts nothing when the glyph list reaches past the
+# insertion table"): a font found by the morx-run generator whose single insertion subtable made a 3-glyph string
+# cost work cubic in max_ops — an out-of-range marked-insert index made InsertionCtx::transition return
+# (`glyphs.get(i)?`) right after move_to(mark)+copy_glyph, so the cursor stayed rewound at the mark (=0) and one
+# glyph was duplicated; drive re-scanned the whole buffer once per unit of max_ops, and every re-scanned glyph ran a
+# zero-count marked insertion (move_to(0) and back: O(n) for 0 ops). With the default budget of shape()
+# (max_ops = 16384) the 3 glyphs did not finish in 15 minutes. Kept as a permanent timing probe (also
+# corpus/C01/morx_insertion_slow.json for the C01 check).
 SLOW_FONT_HEX = "000100000006004000020020636d6170000000000000006c000000346865616400000000000000a0000000366868656100000000000000d800000024686d747800000000000000fc000000306d617870000000000000012c000000066d6f72780000000000000134000000dc000000010003000a0000000c000c0000000000280000000000000002000000610000006b000000010000e0000000e00a000000010001000000010000000000005f0f3cf5000003e8000000000000000000000000000000000000000003e803e8000000080002000000000000000100000320ff38000003e80000000003e800010000000000000000000000000000000c01f4000001fe00000208000002120000021c00000226000002300000023a000002440000024e0000025800000262000000005000000c0000000200000000000100000001000000d40000000200000001000e000100000001000000000001000200000001fffffff9000000ac00000005000000010000000700000014000000680000002e0000005e0000000600010001000100050006000300020001000400040001000148610064ffff00010c620002ffff00000c430001000100020861ffff0056000200000003000200030043ffffffff000c00030008000300050005000100030000000200000000000200020000000100080000000300010004000300050005000100030001000000050005000300030000"
 SLOW_FONT_RECIPE = "12 0 1 1 2 14 1 1 0 1 2 1 4294967289 1 0 1 5 7 12 0 6 1 1 2 1 3 1 4 5 5 6 6 3 7 2 8 1 9 4 10 4 11 1 28 5 1 3 0 2 0 0 2 2 0 1 8 0 3 1 4 3 5 5 1 3 1 0 5 5 3 3 0 14 1 18529 100 65535 1 3170 2 65535 0 3139 1 1 2 2145 65535 86 2 0 3 2 3 67 65535 65535 12 3 8 3 5 5 1 3 0 2 0 0 2 2 0 1 8 0 3 1 4 3 5 5 1 3 1 0 5 5 3 3 33 12 3 8 3 5 5 1 3 0 2 0 0 2 2 0 1 8 0 3 1 4 3 5 5 1 3 1 0 5 5 3 3 0"
 SLOW_GLYPHS = "11:2,8:1,0:0"
@@ -928,17 +930,22 @@ SLOW_GLYPHS = "11:2,8:1,0:0"
 def slow_probe(ctx, shim, model):
     import time
     obs = []
-    for mo in ctx.budget((200, 400, 800), (400, 800, 1600, 3200)):
+    for mo in ("400", "3200", "-"):
         ln = f"morx run {SLOW_FONT_HEX} R {SLOW_FONT_RECIPE} I l 0 {mo} - - {SLOW_GLYPHS}"
-        t0 = time.time(); x = vlib.run_lines(shim, [ln], nproc=1, timeout=300)[0]; dt = time.time() - t0
-        y = vlib.run_lines(model, [ln], nproc=1, timeout=600)[0] if mo <= 800 else x
+        t0 = time.time(); x = vlib.run_lines(shim, [ln], nproc=1, timeout=60)[0]; dt = time.time() - t0
+        y = vlib.run_lines(model, [ln], nproc=1, timeout=120)[0]
         obs.append({"max_ops": mo, "seconds": round(dt, 3), "model_agrees": canon(x) == canon(y),
                     "glyphs_out": len(gids_of(x.split()[3])) if x.startswith("ok") else x[:30]})
-    ctx.cov.setdefault("probes", {})["F2-insertion-rescan"] = {
-        "glyphs_in": SLOW_GLYPHS, "observations": obs,
-        "note": "time grows ~8x per doubling of max_ops (cubic); shape() uses max_ops >= 16384"}
-    if any(not o["model_agrees"] for o in obs):
-        ctx.violation("model and crate disagree on the F2 probe", {"stage": "search", "stream": "morx-f2", "observations": obs})
+    t0 = time.time()
+    z = vlib.run_groups(shim, [["font f " + SLOW_FONT_HEX, "shape f l - - 0 0 - - - 6b:0,68:1,21:2"]], nproc=1, timeout=60)[0][1]
+    obs.append({"shape()": "kh!", "seconds": round(time.time() - t0, 3), "reply": z[:40]})
+    ctx.cov.setdefault("probes", {})["F2-insertion-rescan"] = {"glyphs_in": SLOW_GLYPHS, "observations": obs}
+    slow = [o for o in obs if o["seconds"] > 10 or str(o.get("glyphs_out", o.get("reply", ""))).startswith(("timeout", "abort"))]
+    if slow or any(not o.get("model_agrees", True) for o in obs) or not z.startswith("ok 14 "):
+        ctx.violation("F2 probe (insertion subtable with an out-of-range glyph list): slow, crashing or not as the model",
+                      {"stage": "search", "stream": "morx-f2", "observations": obs})
+    ctx.note_search("morx-f2", len(obs), len(obs), rule="the former hang: 3 glyphs on SLOW_FONT_HEX at max_ops 400 / 3200 / "
+                    "default through the hook and through shape(); must finish in < 10 s and agree with the model")
 
 
 def run(ctx):
